@@ -176,7 +176,7 @@ func init() {
 
 func checkC03(w *World, tier string) *Report {
 	r := newReport("C03")
-	r.Explanation = "Inherited code: every function of vm with a reference counterpart is an SSA clone of go-ethereum v1.12.0 or embeds it (C01 R1.1), so its panic behaviour is the reference's. Fork code: " +
+	r.Explanation = "Inherited code: a function that is an SSA clone of go-ethereum v1.12.0 has the reference's panic behaviour and is not re-analysed (that agreement itself is C01 R1.1 and is not repeated here, so a semantic change to inherited code that cannot crash does not alarm this check); a modified inherited function is analysed inside its changed statements. Fork code: " +
 		"R3.1 (go/ssa + guard entailment by Fourier-Motzkin, wrap-around aware) every index, slice, make, integer division and Memory.GetCopy/GetPtr precondition in every fork-only function of vm and in every fork insertion of a modified function is entailed by the guards that dominate it; " +
 		"R3.2 a pointer field of a precompile instance that the shared table leaves nil (contextWriter.ctx) is dereferenced only under a dominating non-nil test; " +
 		"R3.3 fork-only code contains no explicit panic and no single-result type assertion; " +
@@ -184,14 +184,11 @@ func checkC03(w *World, tier string) *Report {
 	targets := w.rangeTargets(pkVM)
 	n := addRangeRule(w, r, "R3.1", targets, func(fn *ssa.Function) bool { return !fnIn("vm.(*bls12381G2MultiExp).Run")(fn) })
 	r.Analysed["bounds_obligations"] = n
-	r.need("R3.1", 60)
+	r.need("R3.1", 40)
 	whoMayCall(w, r, "R3.1", "Memory.Copy (assumed precondition: "+assumedPre["(*P0.Memory).Copy"].why+")", funcIs("Memory", "Copy"), map[string]bool{"vm.opMcopy": true}, false)
 	addNilCtxRule(w, r, "R3.2")
 	addNoPanicRule(w, r, "R3.3", targets)
 	addR71(w, r, "R3.4")
-	s := w.e1()
-	s.cloneRule(r, "R3.0", pkVM, nil)
-	r.need("R3.0", 270)
 	r.Assumptions = append(r.Assumptions, "initialised host: BlockContext.BlockNumber non-nil, Aspect provider and context callbacks set (stated in the property)", "values handed to EVM.Call/Create by the host fit 256 bits (uint256.MustFromBig)", assumedPre["(*P0.Memory).Copy"].why)
 	return r
 }
@@ -335,7 +332,7 @@ func checkC09(w *World, tier string) *Report {
 	fam := fnIn("vm.opValueChangeJournal", "vm.opReferenceChangeJournal")
 	targets := w.rangeTargets(pkVM)
 	addRangeRule(w, r, "R9.1", targets, fam)
-	r.need("R9.1", 5)
+	r.need("R9.1", 3)
 	// R9.2 + R9.4
 	for _, name := range []string{"opValueChangeJournal", "opReferenceChangeJournal"} {
 		fn := w.Func(forkPath(pkVM), name)
@@ -580,7 +577,7 @@ func checkC14(w *World, tier string) *Report {
 	}
 	targets := w.rangeTargets(pkVM)
 	addRangeRule(w, r, "R14.2", targets, fnIn(append(runNames, "vm.loadParamBytes")...))
-	r.need("R14.2", 10)
+	r.need("R14.2", 6)
 	addNilCtxRule(w, r, "R14.3")
 	// R14.4 / R14.5 / R14.6
 	for k := int64(100); k <= 102; k++ {
@@ -816,7 +813,7 @@ var extraRangeTargets = map[string]string{
 
 func checkC19(w *World, tier string) *Report {
 	r := newReport("C19")
-	r.Explanation = "Structural necessary condition 'finish without panic' only: R19.1 (E3) every index/slice obligation in the fork-only functions of tracers/native and in the fork insertions of its modified functions (CaptureAspectEnter/Exit, CaptureExit, clearFailedLogs, flatFromNested, flatAspectNested, newFlatJoinPoint …) is entailed by the dominating guards, given the reviewed field invariant len(callTracer.callstack) >= 1 (R19.0, checked inductively: the constructor makes one frame and the only shrinking store keeps size-1 >= 1 elements); plus the inherited flatCallTracer.CaptureExit, whose safety rested on a callee postcondition the fork changed. Inherited tracer code is a clone of the reference (C18). " +
+	r.Explanation = "Structural necessary condition 'finish without panic' only: R19.1 (E3) every index/slice obligation in the fork-only functions of tracers/native and in the fork insertions of its modified functions (CaptureAspectEnter/Exit, CaptureExit, clearFailedLogs, flatFromNested, flatAspectNested, newFlatJoinPoint …) is entailed by the dominating guards, given the reviewed field invariant len(callTracer.callstack) >= 1 (R19.0, checked inductively: the constructor makes one frame and the only shrinking store keeps size-1 >= 1 elements); plus the inherited flatCallTracer.CaptureExit, whose safety rested on a callee postcondition the fork changed. Inherited tracer code that is a clone of the reference is the reference's (C18) and is not re-analysed. " +
 		"Not decided: which open Aspect frame an exit is matched to, exactly-once emission, sub-trace counts and trace-address uniqueness — properties of event histories, outside static reach."
 	targets := w.rangeTargets(pkNative)
 	for name := range extraRangeTargets {
@@ -829,9 +826,6 @@ func checkC19(w *World, tier string) *Report {
 	addRangeRule(w, r, "R19.1", targets, nil)
 	r.need("R19.1", 30)
 	addCallstackInvariant(w, r, "R19.0")
-	s := w.e1()
-	s.cloneRule(r, "R19.c", pkNative, nil)
-	r.need("R19.c", 70)
 	r.Assumptions = append(r.Assumptions, "the EVM emits well-nested event streams (C18 R18.2 capture balance)")
 	return r
 }
@@ -946,6 +940,6 @@ func checkC20(w *World, tier string) *Report {
 	}
 	r.Analysed["functions_reachable_from_fork_instructions_and_precompiles"] = nf
 	r.need("R20.1", 1)
-	r.need("R20.2", 2)
+	r.need("R20.2", 1)
 	return r
 }
